@@ -564,4 +564,99 @@ Proof.
   unfold el_schedule. destruct (fltb A ts (el_now l)); [discriminate|]. intros [= <-]. simpl. auto.
 Qed.
 
+(* ---- pops are strictly increasing in (timestamp, sequence number) ------------------------------ *)
+
+Lemma ev_lt_trans (a b c : event) : ev_lt A a b = true -> ev_lt A b c = true -> ev_lt A a c = true.
+Proof.
+  rewrite !ev_lt_unfold. order_facts a b c. order_cases a b c;
+  rewrite ?N.ltb_ge, ?N.ltb_lt in *; intros; try lia; try discriminate; intuition (try congruence; try discriminate; try lia).
+Qed.
+
+(** [e] is a strict lower bound of everything queued (and of everything that can still be
+    scheduled): it is what the last popped event is for the loop *)
+Definition lb l (e : event) : Prop :=
+  (forall x, In x (el_q l) -> ev_lt A e x = true) /\ le (ev_ts e) (el_now l) /\ (ev_seq e < el_seq l)%N.
+
+Definition lb_opt l (lo : option event) : Prop := match lo with Some e => lb l e | None => True end.
+
+Fixpoint chain_sorted (lo : option event) (pops : list event) : Prop :=
+  match pops with
+  | [] => True
+  | x :: r => match lo with Some e => ev_lt A e x = true | None => True end /\ chain_sorted (Some x) r
+  end.
+
+Lemma ev_lt_later (e x : event) : le (ev_ts e) (ev_ts x) -> (ev_seq e < ev_seq x)%N -> ev_lt A e x = true.
+Proof.
+  intros Hle Hs. rewrite ev_lt_unfold. rewrite Hle. simpl.
+  destruct (fleb A (ev_ts x) (ev_ts e)); simpl; [apply N.ltb_lt; exact Hs|reflexivity].
+Qed.
+
+Lemma lb_schedule l e ts p l' : lb l e -> el_schedule A l ts p = Some l' -> lb l' e.
+Proof.
+  intros (H1 & H2 & H3). unfold el_schedule. destruct (fltb A ts (el_now l)) eqn:E; [discriminate|]. intros [= <-].
+  rewrite (ltb_leb A OL) in E. apply negb_false_iff in E. split; [|split]; simpl.
+  - intros x Hx. apply in_app_or in Hx. destruct Hx as [Hx|[<-|[]]]; [apply H1; exact Hx|].
+    apply ev_lt_later; simpl; [eapply (leb_trans A OL); eassumption|exact H3].
+  - exact H2.
+  - lia.
+Qed.
+
+Lemma lb_after_pop l e l' : el_inv l -> el_pop A l = Some (e, l') -> lb l' e.
+Proof.
+  intros Hinv Hpop. destruct (el_pop_spec _ _ _ Hinv Hpop) as (Hin & Hmin & Hperm & Hnow & Hseq & Hle).
+  split; [|split].
+  - intros x Hx. assert (Hxl : In x (el_q l)) by (eapply Permutation_in; [exact Hperm|right; exact Hx]).
+    assert (Hne : ev_seq x <> ev_seq e).
+    { assert (NoDup (map (@ev_seq F P) (e :: el_q l'))) as Hnd
+        by (eapply Permutation_NoDup_map; [apply Permutation_sym; exact Hperm|apply (inv_nodup l Hinv)]).
+      inversion Hnd as [|? ? Hni _]; subst. intro Heq. apply Hni. rewrite <- Heq. apply in_map. exact Hx. }
+    destruct (ev_lt_total x e Hne) as [H|H]; [rewrite (Hmin x Hxl) in H; discriminate|exact H].
+  - rewrite Hnow. apply (leb_refl A OL).
+  - rewrite Hseq. apply (inv_seq_lt l Hinv). exact Hin.
+Qed.
+
+(** Over every history of operations the popped events are strictly increasing in
+    (timestamp, sequence number): later in time, or same instant and scheduled later.  This is
+    C01 (time never runs backwards) and C03 (FIFO among ties) in one statement. *)
+Theorem el_pops_sorted l ops lo :
+  el_inv l -> lb_opt l lo ->
+  let '(_, pop, _, _) := el_ghost l ops in chain_sorted lo pop.
+Proof.
+  revert l lo. induction ops as [|o r IH]; intros l lo Hinv Hlb; simpl; [exact I|].
+  assert (Hsame : forall l1, el_inv l1 -> lb_opt l1 lo ->
+            let '(_, pop, _, _) := (let '(acc2, pop2, clr2, l2) := el_ghost l1 r in (acc2, pop2, clr2, l2)) in chain_sorted lo pop).
+  { intros l1 Hi1 Hl1. specialize (IH l1 lo Hi1 Hl1). destruct (el_ghost l1 r) as [[[a b] c] d]. exact IH. }
+  destruct o; simpl.
+  - destruct (el_schedule A l ts p) as [l'|] eqn:E.
+    + pose proof (el_schedule_inv _ _ _ _ Hinv E) as Hinv'.
+      assert (Hlb' : lb_opt l' lo) by (destruct lo; [eapply lb_schedule; eassumption|exact I]).
+      specialize (Hsame l' Hinv' Hlb'). destruct (el_ghost l' r) as [[[a b] c] d]. exact Hsame.
+    + specialize (Hsame l Hinv Hlb). destruct (el_ghost l r) as [[[a b] c] d]. exact Hsame.
+  - destruct (el_pop A l) as [[e l']|] eqn:E.
+    + pose proof (el_pop_inv _ _ _ Hinv E) as Hinv'. pose proof (lb_after_pop _ _ _ Hinv E) as Hlb'.
+      destruct (el_pop_spec _ _ _ Hinv E) as (Hin & _).
+      specialize (IH l' (Some e) Hinv' Hlb'). destruct (el_ghost l' r) as [[[a b] c] d]. simpl.
+      split; [|exact IH]. destruct lo as [e0|]; [|exact I]. destruct Hlb as (H1 & _). apply H1. exact Hin.
+    + specialize (Hsame l Hinv Hlb). destruct (el_ghost l r) as [[[a b] c] d]. exact Hsame.
+  - specialize (Hsame l Hinv Hlb). destruct (el_ghost l r) as [[[a b] c] d]. exact Hsame.
+  - assert (Hlb' : lb_opt (el_clear l) lo).
+    { destruct lo as [e0|]; [|exact I]. destruct Hlb as (H1 & H2 & H3). split; [intros x []|split; assumption]. }
+    specialize (Hsame (el_clear l) (el_clear_inv l Hinv) Hlb'). destruct (el_ghost (el_clear l) r) as [[[a b] c] d]. exact Hsame.
+  - specialize (Hsame l Hinv Hlb). destruct (el_ghost l r) as [[[a b] c] d]. exact Hsame.
+  - specialize (Hsame l Hinv Hlb). destruct (el_ghost l r) as [[[a b] c] d]. exact Hsame.
+Qed.
+
+(** consecutive => pairwise *)
+Lemma chain_sorted_pairwise lo pops :
+  chain_sorted lo pops ->
+  forall p1 x p2 y p3, pops = p1 ++ x :: p2 ++ y :: p3 -> ev_lt A x y = true.
+Proof.
+  revert lo. induction pops as [|z r IH]; intros lo Hc p1 x p2 y p3 Heq; [destruct p1; discriminate|].
+  destruct Hc as [_ Hc]. destruct p1 as [|w p1]; simpl in Heq.
+  - injection Heq as <- ->. clear IH. revert z Hc. induction p2 as [|u p2 IH2]; intros z Hc; simpl in Hc.
+    + destruct Hc as [H _]. exact H.
+    + destruct Hc as [H Hc']. eapply ev_lt_trans; [exact H|]. apply IH2. exact Hc'.
+  - injection Heq as <- Heq. eapply IH; eassumption.
+Qed.
+
 End EventLoopP.
